@@ -20,13 +20,15 @@ def run(rep, tier, seed):
     from harness.c09 import load_log_all
     wd = workdir(pid, "shapes", wipe=True)
     shapes = 0
-    for cfg in (["MC_Shapes.cfg", "MC_Fields.cfg", "MC_FieldsMaps.cfg"] if tier == "quick" else ["MC_Shapes.cfg", "MC_Shapes6.cfg", "MC_Fields.cfg", "MC_FieldsMaps.cfg"]):
+    for cfg in (["MC_Shapes.cfg", "MC_Fields.cfg", "MC_FieldsMaps.cfg", "MC_FieldsTexts.cfg"] if tier == "quick" else ["MC_Shapes.cfg", "MC_Shapes6.cfg", "MC_Fields.cfg", "MC_FieldsMaps.cfg", "MC_FieldsTexts.cfg"]):
         out = os.path.join(wd, "shapes.out")
         r = run_tlc("MC_Shapes" if "Shapes" in cfg else "MC_Fields", cfg=os.path.join(SPEC, cfg), stdout_path=out, timeout=2400)
         if not r.ok or r.invariant_violated:
             raise MachineryError(f"{cfg}: the encoding / oracle is wrong:\n" + r.out[-1500:])
         rep.add_tlc(r, cfg + (" (all pairs of ordered labelled trees)" if "Shapes" in cfg else " (all pairs of nodes over adversarial field universes, alone and as only children)"))
         c12.G["SH"] = load_log_all(out)["E"]
+        # look-alike texts for the "texts" focus: layout-like whitespace with and without line breaks, "" and None
+        c12.G["SH_text_of"] = ({0: None, 1: "\n", 2: "", 3: "\n    ", 4: " ", 5: "\r\n\t", 6: "x"}.get if "Texts" in cfg else None)
         os.remove(out)
         if not any(e["same"] for e in c12.G["SH"]) or all(e["same"] for e in c12.G["SH"]):
             raise MachineryError("vacuous shapes")
